@@ -7,7 +7,8 @@ Tie/judgement on the real binary (debug and release builds, CPU-time and address
   never any other status, never a timeout.
 Inputs: structure-aware mutations of valid grammars, planted mistakes, multi-line constructs, escapes,
 non-ASCII and invalid UTF-8, token soups; x 4 shells x {file, stdout}."""
-from .. import build, canon, gen, impl, model, planted, report, sexp
+from .. import build, canon, coqcheck, gen, impl, model, planted, report, sexp
+from . import maintie
 
 SHELLS = planted.SHELLS
 
@@ -24,7 +25,20 @@ MANIFEST = dict(
           'CPU and memory limits on structure-aware mutations of valid grammars, planted mistakes of every class, every small '
           'expression tree over one leaf of each kind, multi-line spans, escapes, non-ASCII, invalid UTF-8 and token soups, x 4 '
           'shells x {file, stdout}: exit 0 with a complete script, or exit 1 with a diagnostic, nothing on stdout and the '
-          'destination untouched.'),
+          'destination untouched. Props/C06c.v: the COMMAND itself (main.rs aot + handle_error) as one Gallina function from the '
+          'command line, the input and the oracles to the trace of effects (Model/Main.v run: stdout, stderr messages, file '
+          'writes, exit), proved for every command line and input: the trace ends with its only Exit, code 0 or 1, never Panic / '
+          'OutOfFuel (C06_main_total); code 1 -> a diagnostic is the last effect before Exit, no script write, only the --regex / '
+          '--dfa files may be written, hence nothing at the script destination unless one of them names it '
+          '(C06_main_exit1, _destination_untouched; the excluded corner is a known finding, reproduced on the binary every run); '
+          'code 0 -> exactly one script write whose content is Driver.compile + the emitter (compile_bash for bash) and no '
+          'diagnostic (C06_main_exit0); the verdict and the diagnostics are those of Driver.compile (C08_main_verdict); Props/C15c.v: the '
+          'warnings on stderr are exactly Diag.warning_messages of the validated grammar, each once, sorted, first, and for any two '
+          'choices of the warning sets the traces minus the warnings (exit status and script write included) are equal. Tie '
+          '(maintie.py): the binary over command lines (0/1/2+ shell options, destination file / - / existing file, --regex / '
+          '--dfa to a file, to -, to the script path, usage file present / missing / stdin / absent, --version) x inputs (clean, '
+          'warnings, an error of every stage, empty, invalid UTF-8, non-ASCII, random mutated grammars): exit status, stdout, '
+          'stderr message by message, and every file of the directory afterwards equal the model trace (bash script byte for byte).'),
     design='6 C06, 13',
     technique='Coq totality theorem for the whole pipeline model (partial: runtime resources outside the model) + end-to-end model/library tie + exhaustive-outcome judgement of the real binary on mutated inputs')
 
@@ -190,6 +204,13 @@ def judge(b, shell, to_file, sentinel):
 def run(ctx, res):
     with build.Lock():
         bins = {'debug': build.complgen(False), 'release': build.complgen(True)}
+        # the theorems about the command as a whole (Model/Main.v) live in Props/C06c.v, those about its warnings in Props/C15c.v
+        extras = {p: coqcheck.check_property(p) for p in ('C06c', 'C15c')}
+    for p, extra in extras.items():
+        if not extra['ok']:
+            res.violations.append(report.Violation('proof obligations of %s (the command as a trace of effects) no longer check' % p,
+                                                   dict(kind='proof-obligation', errors=extra['errors'][:5]), found_input=False))
+        res.extra['theorems_' + p] = extra['theorems']
     cs = cases(ctx)
     r = ctx['rng']
     jobs, meta = [], []
@@ -236,6 +257,8 @@ def run(ctx, res):
     res.nontrivial = len(set(t for _, t in cs))
     res.traces_validated = res.evaluations
     end_to_end(ctx, res, cs)
+    # Model/Main.v (the whole command as a trace of effects) against the binary: command lines x inputs
+    maintie.tie(ctx, res, extra=[(k, t) for k, t in cs if not k.startswith('probe')])
     res.extra['inputs_per_kind'] = kinds
     res.extra['outcomes'] = outcomes
     res.assumptions = ['stack exhaustion on extreme nesting depth and exponential expansion of definitions are outside the generators '
